@@ -1,6 +1,7 @@
 import TantivyModel.Proofs.AggAlgebra
 import TantivyModel.Proofs.AggSpecEq
 import TantivyModel.Proofs.AggTrunc
+import TantivyModel.Proofs.AggCut
 /-!
 # C14 — Aggregations equal a direct computation and do not depend on partitioning
 
@@ -196,6 +197,20 @@ theorem C14_terms_error_bound (p : TermsP) (sub : Req) (parts : List (List Doc))
   rw [e]
   exact terms_error_bound p sub parts U hU hcov
 
+/-- **One segment: the cut to `segment_size` is invisible in what is shown.**  For every order of
+the request (`_count` ascending / descending, `_key` ascending / descending) and every
+`size ≤ segment_size` (guaranteed by the request defaults, `C14_segment_size_ge_size`) the
+first `size` buckets in request order of the truncated segment are those of the untruncated
+one; together with `C14_terms_error_bound` (nothing is lost: the cut counts are in
+`sum_other_doc_count`) a single-segment result is exact although `doc_count_error_upper_bound`
+is non-zero.  (The cut happens before the `min_doc_count` filter: with `min_doc_count > 1` the
+shown buckets may differ — that is the code's documented behaviour and the harness checks only the
+bounds then.) -/
+theorem C14_single_segment_cut_exact {V : Type} (p : TermsP) (t : TermsI V) (hsz : p.size ≤ p.segSize) :
+    (sortBuckets p.order (termsCut p t).map.entries).take p.size
+      = (sortBuckets p.order t.map.entries).take p.size :=
+  termsCut_shown_eq p t hsz
+
 /-- the final stage keeps the books as well: what the `size` cut removes goes to
 `sum_other_doc_count` (buckets below `min_doc_count` are dropped, as in the code) -/
 theorem C14_terms_final_conservation {V : Type} (p : TermsP) (all : List (Int × Nat × V)) (other err : Nat) :
@@ -351,6 +366,10 @@ example : evalAgg Int (.composite [⟨0, 3, false⟩, ⟨1, 2, true⟩] 2 (some 
 example : [0, 10, 20].Pairwise (fun a b : Int => a < b) := by decide
 example : ([1, 2, 3] : List Int).Nodup ∧ ∀ d ∈ exTDocs, ∀ k ∈ termKeys ⟨0, Option.none, 2, 2, 1, .countDesc⟩ d, k ∈ [1, 2, 3] := by
   decide
+/-- ascending count, `size = 1 ≤ segment_size = 2`, three distinct terms: the rarest term survives the cut -/
+example : ((sortBuckets Order.countAsc (termsCut ⟨0, Option.none, 1, 2, 1, .countAsc⟩
+      (collect (M := Int) (.terms ⟨0, Option.none, 1, 2, 1, .countAsc⟩ .none) exTDocs)).map.entries).take 1).map
+    (fun b => (b.1, b.2.1)) = [(3, 1)] := by decide +kernel
 /-- a segment with three distinct terms and `segment_size = 2` is truncated: one bucket goes to
 `sum_other_doc_count`, its count is the error bound -/
 example : ((harvest (M := Int) exTReq (collect exTReq exTDocs)).other,
